@@ -9,7 +9,7 @@ OPS = {'add': '+', 'sub': '-', 'mul': '*', 'div': '/', 'rem': '%'}
 
 
 def opf(op, a, b):
-    return {'add': lambda: a + b, 'sub': lambda: a - b, 'mul': lambda: a * b, 'div': lambda: a / b, 'rem': lambda: A.fn('rem', a, b)}[op]()
+    return {'add': lambda: a + b, 'sub': lambda: a - b, 'mul': lambda: a * b, 'div': lambda: A.fn('idiv', a, b), 'rem': lambda: A.fn('rem', a, b)}[op]()
 
 
 def build():
@@ -40,7 +40,7 @@ def build():
         h.root('from_vec__' + p, g + '(a: %s) -> %s' % (Tv, Tp), '<%s as EuclideanSpace>::from_vec(a)' % Tp, ('value', a), rule='K1 copy provenance')
         h.root('to_vec__' + p, g + '(a: %s) -> %s' % (Tp, Tv), 'EuclideanSpace::to_vec(a)', ('value', a), rule='K1 copy provenance')
         h.root('dot__' + p, g + '(a: %s, b: %s) -> S' % (Tp, Tv), 'EuclideanSpace::dot(a, b)', ('value', A.dot(a, b)))
-        h.root('midpoint__' + p, g + '(a: %s, b: %s) -> %s' % (Tp, Tp, Tp), 'EuclideanSpace::midpoint(a, b)', ('value', [x + (y - x) / 2 for x, y in zip(a, b)]))
+        h.root('midpoint__' + p, g + '(a: %s, b: %s) -> %s' % (Tp, Tp, Tp), 'EuclideanSpace::midpoint(a, b)', ('value', [x + A.fn('idiv', y - x, El.c(2)) for x, y in zip(a, b)]))
         h.root('centroid__' + p, '<S: BaseNum + NumCast>(a: &[%s]) -> %s' % (Tp, Tp), '<%s as EuclideanSpace>::centroid(a)' % Tp, ('centroid', n))
         h.root('new__' + p, '<S>(%s) -> %s' % (', '.join('%s: S' % c for c in comps), Tp), '%s::new(%s)' % (P, ', '.join(comps)), ('value', [ss('a%d' % i) for i in range(n)]), rule='K1 copy provenance')
         h.root('from_value__' + p, g + '(a: S) -> ' + Tp, '<%s as Array>::from_value(a)' % Tp, ('value', [ss('a0')] * n))
@@ -56,9 +56,9 @@ def build():
     p3 = sv('a0', 3)
     v4 = sv('a0', 4)
     h.root('to_homogeneous', g + '(a: Point3<S>) -> Vector4<S>', 'a.to_homogeneous()', ('value', p3 + [ONE]))
-    h.root('from_homogeneous', g + '(a: Vector4<S>) -> Point3<S>', 'Point3::from_homogeneous(a)', ('value', [v4[i] / v4[3] for i in range(3)]))
+    h.root('from_homogeneous', g + '(a: Vector4<S>) -> Point3<S>', 'Point3::from_homogeneous(a)', ('value', [v4[i] / v4[3] for i in range(3)]), field_div=True)
     k = ss('a1')
-    h.root('law_homogeneous', g + '(a: Point3<S>, k: S) -> Point3<S>', 'Point3::from_homogeneous(a.to_homogeneous() * k)', ('value', p3))
+    h.root('law_homogeneous', g + '(a: Point3<S>, k: S) -> Point3<S>', 'Point3::from_homogeneous(a.to_homogeneous() * k)', ('value', p3), field_div=True)
     return h
 
 
@@ -104,6 +104,8 @@ def check_centroid(run, S, name, spec, kw):
 
 
 def run(tier):
+    import core
+    core.DEFAULT_FIELD_DIV = False
     run = Run(PROP, tier, 'proof')
     h = build()
     S, inv, meta = facts.extract(PROP, h.src())
